@@ -90,6 +90,12 @@ struct Entry {
 
 /// Runs the interleaving `order` (transfer indices) and returns per-transfer transcripts.
 fn run_order(ts: &[Transfer], order: &[usize], rep: Option<&mut Report>) -> Result<Vec<Vec<Entry>>, (String, String)> {
+    run_events(ts, order, rep, false)
+}
+
+/// `overlapped`: a request that reaches the application stays pending (its response phase is a separate event), so
+/// other transfers' requests can be begun in between - a server that processes requests concurrently.
+fn run_events(ts: &[Transfer], order: &[usize], rep: Option<&mut Report>, overlapped: bool) -> Result<Vec<Vec<Entry>>, (String, String)> {
     let mut srv = Server::new(BUDGET, Duration::from_secs(3600));
     clock::reset();
     let table: Vec<(Key, Transfer)> = ts.iter().map(|t| (t.key.clone(), t.clone())).collect();
@@ -108,37 +114,75 @@ fn run_order(ts: &[Transfer], order: &[usize], rep: Option<&mut Report>) -> Resu
     };
     let mut pos = vec![0usize; ts.len()];
     let mut out: Vec<Vec<Entry>> = vec![Vec::new(); ts.len()];
+    let mut pending: Vec<Option<(Box<Pending>, u16)>> = (0..ts.len()).map(|_| None).collect();
     let mut mid = 0x2000u16;
     let mut rep = rep;
-    for &ti in order {
+    // events in the given order, then whatever is still pending / not yet sent, transfer by transfer
+    let mut events: Vec<usize> = order.to_vec();
+    for ti in 0..ts.len() {
+        if order.contains(&ti) {
+            for _ in 0..2 * ts[ti].kind.len() {
+                events.push(ti);
+            }
+        }
+    }
+    for &ti in &events {
         let t = &ts[ti];
-        mid = mid.wrapping_add(1);
-        let req = request_of(t, pos[ti], mid);
-        let calls_before = srv.app_calls.len();
-        let x = srv.exchange(t.key.ep, &req, &app);
+        let x: Exchange;
+        let this_mid: u16;
+        let mut app_saw: Option<Vec<u8>> = None;
+        if let Some((p, m)) = pending[ti].take() {
+            // response phase of the pending request
+            let reply = app(&p.call);
+            app_saw = Some(p.call.request.payload.clone());
+            this_mid = m;
+            x = srv.finish(*p, reply);
+        } else {
+            if pos[ti] >= t.kind.len() {
+                continue;
+            }
+            mid = mid.wrapping_add(1);
+            this_mid = mid;
+            let req = request_of(t, pos[ti], mid);
+            pos[ti] += 1;
+            match srv.begin(t.key.ep, &req) {
+                Begun::Done(d) => x = d,
+                Begun::NeedsApp(p) => {
+                    if overlapped {
+                        pending[ti] = Some((p, mid));
+                        if let Some(r) = rep.as_deref_mut() {
+                            r.visit(&srv.snapshot());
+                        }
+                        continue;
+                    }
+                    let reply = app(&p.call);
+                    app_saw = Some(p.call.request.payload.clone());
+                    x = srv.finish(*p, reply);
+                }
+            }
+        }
         if let Some(r) = rep.as_deref_mut() {
             r.visit(&srv.snapshot());
         }
         if let Some((stage, pn)) = &x.panic {
             return Err((format!("C12/panic@{}", pn.site()), format!("{:?}: {}", stage, pn.message)));
         }
+        let step = out[ti].len();
         let reply: RefMsg = match x.reply.as_deref().and_then(parse_reply) {
             Some(r) => r,
-            None => return Err(("C12/no-reply".into(), format!("transfer {} step {} got no reply", ti, pos[ti]))),
+            None => return Err(("C12/no-reply".into(), format!("transfer {} step {} got no reply", ti, step))),
         };
-        let token = token_of(t, mid);
-        if reply.mid != mid || reply.token != token {
+        let token = token_of(t, this_mid);
+        if reply.mid != this_mid || reply.token != token {
             return Err((
                 "C12/reply-does-not-echo-current-request".into(),
                 format!(
                     "transfer {} step {}: request mid {:#06x} token {:02x?}, reply mid {:#06x} token {:02x?}",
-                    ti, pos[ti], mid, token, reply.mid, reply.token
+                    ti, step, this_mid, token, reply.mid, reply.token
                 ),
             ));
         }
-        let app_saw = if srv.app_calls.len() > calls_before { Some(srv.app_calls.last().unwrap().request.payload.clone()) } else { None };
         out[ti].push(Entry { code: reply.code, options: reply.options.clone(), payload: reply.payload.clone(), app_saw });
-        pos[ti] += 1;
     }
     Ok(out)
 }
@@ -186,6 +230,7 @@ fn variants() -> Vec<(&'static str, Vec<Key>)> {
         ("path-segmentation", vec![k(1, 3, &["a", "b"]), k(1, 3, &["a/b"]), k(1, 3, &["a", "b", ""])]),
         ("path-prefix", vec![k(1, 3, &["a"]), k(1, 3, &["a", "b"]), k(1, 3, &["a", "b", "c"])]),
         ("path-other", vec![k(1, 3, &["a"]), k(1, 3, &["b"]), k(1, 3, &["A"])]),
+        ("path-same-concatenation", vec![k(1, 3, &["ab", "c"]), k(1, 3, &["a", "bc"]), k(1, 3, &["abc"])]),
         ("method-get-fetch", vec![k(1, 1, &["a", "b"]), k(1, 5, &["a", "b"]), k(1, 4, &["a", "b"])]),
     ]
 }
@@ -205,8 +250,20 @@ pub fn run(ctx: &Ctx, rep: &mut Report) {
         groups.push(("triple-Mixed-Upload-Download".into(), vec![Kind::Mixed, Kind::Upload, Kind::Download]));
         groups.push(("triple-Mixed-Mixed-Mixed".into(), vec![Kind::Mixed; 3]));
     }
-    for (gname, kinds) in &groups {
-        let counts: Vec<usize> = kinds.iter().map(|k| k.len()).collect();
+    // event-level (overlapped) interleavings: the response phase of a request that reached the application is its
+    // own event, so another transfer's request can be begun while it is pending
+    let mut ogroups: Vec<(String, Vec<Kind>, bool)> = groups.iter().map(|g| (g.0.clone(), g.1.clone(), false)).collect();
+    for a in [Kind::Upload, Kind::Download, Kind::Mixed] {
+        for b in [Kind::Upload, Kind::Download, Kind::Mixed] {
+            ogroups.push((format!("overlapped-pair-{:?}-{:?}", a, b), vec![a, b], true));
+        }
+    }
+    if ctx.thorough() {
+        ogroups.push(("overlapped-triple-Upload-Download-Mixed".into(), vec![Kind::Upload, Kind::Download, Kind::Mixed], true));
+    }
+    for (gname, kinds, overlapped) in &ogroups {
+        let overlapped = *overlapped;
+        let counts: Vec<usize> = kinds.iter().map(|k| k.len() + if overlapped { 1 } else { 0 }).collect();
         let merges = multinomial(&counts);
         // triples only for the variants where it matters most in the quick tier
         let use_vars: Vec<usize> = if kinds.len() == 3 && ctx.quick() { vec![0, 1, 2, 3] } else { (0..vars.len()).collect() };
@@ -216,7 +273,7 @@ pub fn run(ctx: &Ctx, rep: &mut Report) {
             rep,
             &fam,
             &format!(
-                "every merge ({} of them) of the scripted transfers {:?} (exchange counts {:?}) x key-difference variants {:?}; budget {}",
+                "every merge ({} of them) of the scripted transfers {:?} (event counts {:?}; overlapped families split the application's turn off as its own event) x key-difference variants {:?}; budget {}",
                 merges,
                 kinds,
                 counts,
@@ -235,6 +292,7 @@ pub fn run(ctx: &Ctx, rep: &mut Report) {
                 let mut solos = Vec::new();
                 for (j, t) in ts.iter().enumerate() {
                     let solo_order = vec![j; t.kind.len()];
+                    let _ = overlapped;
                     match run_order(&ts, &solo_order, None) {
                         Ok(o) => solos.push(o[j].clone()),
                         Err((sig, what)) => {
@@ -244,7 +302,7 @@ pub fn run(ctx: &Ctx, rep: &mut Report) {
                     }
                 }
                 let mut local = Report::new();
-                let r = mccore::guard(|| run_order(&ts, &order, Some(&mut local)));
+                let r = mccore::guard(|| run_events(&ts, &order, Some(&mut local), overlapped));
                 rep.transitions += local.transitions;
                 rep.traces_validated += local.traces_validated;
                 rep.state_set.extend(local.state_set);
